@@ -17,6 +17,8 @@ def x86_class(name):
     base = name.rstrip("0123456789").lower()
     if base in X86_VEC:
         return base
+    if base == "k" and name[1:].isdigit():
+        return "k"  # AVX-512 mask registers form their own class (whether a 'gpr' entry also accepts them is left open)
     return "gpr"
 
 
